@@ -277,6 +277,7 @@ func pairScenario(name string, vals []*rm.Value) *scenario {
 		want[i] = runCodec(v)
 	}
 	return &scenario{Name: name, Setup: func() ([]func(), func(x *vrt.Exec) *finding) {
+		restoreGlobals() // package-level state is part of the state space: every execution starts from the same values
 		got := make([]*codecResult, len(vals))
 		bodies := make([]func(), len(vals))
 		for i, v := range vals {
@@ -298,6 +299,7 @@ func pairScenario(name string, vals []*rm.Value) *scenario {
 }
 
 func c20Plan(thorough bool) *plan {
+	snapshotGlobals()
 	var scs []*scenario
 	for _, t := range bind.Types {
 		scs = append(scs, pairScenario(t.QName()+" x "+t.QName(), []*rm.Value{valenum.Distinct(t), valenum.Long(t)}))
